@@ -100,6 +100,8 @@ type Config struct {
 	MaxPackageLength int    // 0: not written
 	MaxRoutine       int    // worker pool size of the adapters (0: none)
 	GracedownMs      int    // gracedowntimeout
+	HandleTimeoutMs  int    // handletimeout (0: not written)
+	WriteTimeoutMs   int    // writetimeout (0: not written)
 	UDP              bool   // a second servant on a UDP adapter
 	BindHost         string // when set the TCP adapter is "-h <AdvertisedHost> -b <BindHost>"
 	AdvertisedHost   string
@@ -165,6 +167,12 @@ func Start(c Config) (*App, error) {
 		}
 		if c.MaxRoutine > 0 {
 			fmt.Fprintf(&sb, "      maxroutine=%d\n", c.MaxRoutine)
+		}
+		if c.HandleTimeoutMs > 0 {
+			fmt.Fprintf(&sb, "      handletimeout=%d\n", c.HandleTimeoutMs)
+		}
+		if c.WriteTimeoutMs > 0 {
+			fmt.Fprintf(&sb, "      writetimeout=%d\n", c.WriteTimeoutMs)
 		}
 		if c.GracedownMs > 0 {
 			fmt.Fprintf(&sb, "      gracedowntimeout=%d\n", c.GracedownMs)
